@@ -203,6 +203,10 @@ def rule_r4(rep, idx):
     ok = 'tracing' not in fields and 'running' in fields
     rep.add('R4', 'run:loop-condition', ok, pos(cond) + ' ' + f.qname, 'loop condition reads %s' % fields)
     rets = [r for r in walk(f.body) if r['kind'] == 'ReturnStmt']
-    good = bool(rets) and all(children(r) and (cast.member_ref(children(r)[0]) or (None,))[0] == 'exitCode' for r in rets)
-    rep.add('R4', 'run:returns-exit-status', good, pos(rets[0]) + ' ' + f.qname if rets else pos(f.node),
-            '%d return statement(s), all return the exitCode member' % len(rets) if good else 'run() does not return exitCode on every path')
+    kinds = [(cast.member_ref(children(r)[0]) or (None,))[0] if children(r) else None for r in rets]
+    if rets and any(k is None for k in kinds):
+        rep.undecided('R4', 'run:returns-exit-status', 'run() returns an expression that is not a plain member: idiom not recognised', pos(rets[0]))
+    else:
+        good = bool(rets) and all(k == 'exitCode' for k in kinds)
+        rep.add('R4', 'run:returns-exit-status', good, pos(rets[0]) + ' ' + f.qname if rets else pos(f.node),
+                '%d return statement(s), all return the exitCode member' % len(rets) if good else 'run() returns member(s) %s, not exitCode' % kinds)
